@@ -17,7 +17,7 @@ RULE = ('seeded generator: seeds 0..2^32, signal levels 0..1e12 (Gaussian approx
 ASSUMPTIONS = ['statistical bounds are set at >= 7 sigma of the estimator (false-alarm probability < 1e-11 per test)',
                '"rejects" means raises an exception instead of returning a frame']
 PLAN = {'quick': {'gen': 8}, 'thorough': {'gen': 16, 'tests': 1, 'docs': 1}}
-REQUIRED_BUCKETS = ['shot:poisson', 'shot:poisson-large', 'shot:poisson-mixed', 'shot:reject-negative:bright-frame', 'dark:large-rate', 'dark:near-integer-rate', 'shot:gaussian', 'shot:reject-negative', 'shot:reject-huge', 'shot:reject-array',
+REQUIRED_BUCKETS = ['shot:poisson', 'shot:poisson-large', 'shot:poisson-mixed', 'shot:gaussian-bias', 'shot:reject-negative:bright-frame', 'dark:large-rate', 'dark:near-integer-rate', 'shot:gaussian', 'shot:reject-negative', 'shot:reject-huge', 'shot:reject-array',
                     'read_noise', 'read_noise:small-frames', 'read_noise:cube', 'dark:nofpn', 'dark:fpn', 'rule07', 'psd:square', 'psd:nonsquare', 'cosmic', 'cosmic:long-side', 'fresh-process']
 REQUIRED_ANCHORS = ['anchor:shot_noise', 'anchor:read_noise', 'anchor:dark_current', 'anchor:power_spectrum',
                     'anchor:_cosmic_ray', 'anchor:_nrays']
@@ -138,6 +138,19 @@ def workload(ctx, lentil):
         ctx.check(abs(m - lam) <= 1.0 + 7 * np.sqrt(lam / N) and abs(v - lam) <= 1.0 + 7 * lam * np.sqrt(2.0 / N), 'gaussian:moments',
                   'gaussian|moments', 'Gaussian shot noise does not have mean and variance equal to the signal (7 sigma)',
                   {'lam': lam, 'mean': m, 'var': v})
+    # the Gaussian approximation at the low end of its documented regime (1000 .. 3000 counts), on a frame large enough that half a
+    # count of bias in the mean stands out (a draw that is truncated instead of rounded is half a count low on average)
+    for i in range(max(2, n // 40)):
+        lam = float(rng.uniform(1000, 3000))
+        seed = int(rng.integers(0, 2 ** 32))
+        Ng = 4_000_000
+        ctx.case({'gaussian-bias': lam, 'seed': seed}, ['shot:gaussian-bias'])
+        x = np.asarray(D.shot_noise(np.full((2000, 2000), lam), 'gaussian', seed=seed), float)
+        d = x - lam
+        m, v = float(d.mean()), float(d.var(ddof=1))
+        ctx.check(abs(m) <= 7 * np.sqrt(lam / Ng) and abs(v - lam) <= 0.2 + 7 * lam * np.sqrt(2.0 / Ng), 'gaussian:moments',
+                  'gaussian|moments|bias', 'Gaussian shot noise does not have mean and variance equal to the signal (7 sigma on 4e6 pixels: '
+                  'the mean is biased)', {'lam': lam, 'mean-lam': m, 'var': v, 'sigma_of_mean': float(np.sqrt(lam / Ng))})
     # one frame holding both faint pixels and pixels beyond 1e12 counts (a saturated star on a dark sky): every pixel is drawn from
     # its own distribution
     for i in range(max(4, n // 10)):
